@@ -4,7 +4,7 @@
 (* exchange the workers are released.                                           *)
 EXTENDS Naturals, Sequences, FiniteSets, TLC, Json, Randomization
 
-CONSTANTS NProg
+CONSTANTS NProg, NHammer
 VARIABLE prog
 Calls == {"AddTrack", "RemoveTrack", "AddTransceiverFromKind", "AddTransceiverFromTrack", "CreateDataChannel",
           "GetTransceivers", "GetSenders", "GetReceivers", "SignalingState", "ConnectionState", "ICEConnectionState",
@@ -13,7 +13,18 @@ Worker == [1..3 -> Calls]
 Space == [w1 : Worker, w2 : Worker, w3 : Worker, w4 : Worker, nworkers : 2..4,
           phase : {"before-offer", "after-local-offer", "after-remote-answer", "connected"},
           closeAtEnd : BOOLEAN, reps : {1, 3}]
-Init == prog \in RandomSubset(NProg, Space)
+\* "hammer" programs: four workers repeat three light calls sixty times on a connection whose transports are up (or
+\* coming up), among them a call that takes the SCTP transport's lock for writing (CreateDataChannel) and one that
+\* takes it for reading under pc.mu (GetStats): windows of a few instructions between two acquisitions are only
+\* ever hit by repetition
+LightCalls == {"CreateDataChannel", "GetStats", "GetTransceivers", "GetSenders", "SignalingState", "ConnectionState", "WriteSample"}
+LightWorker == [1..3 -> LightCalls]
+Uses(p, c) == \E w \in {p.w1, p.w2, p.w3, p.w4} : \E i \in 1..3 : w[i] = c
+HammerWorkers == RandomSubset(12, LightWorker)
+Hammer == {p \in [w1 : HammerWorkers, w2 : HammerWorkers, w3 : HammerWorkers, w4 : HammerWorkers, nworkers : {4},
+                   phase : {"after-local-offer", "connected"}, closeAtEnd : BOOLEAN, reps : {60}] :
+              Uses(p, "CreateDataChannel") /\ Uses(p, "GetStats")}
+Init == prog \in RandomSubset(NProg, Space) \cup RandomSubset(NHammer, Hammer)
 Next == UNCHANGED prog
 Emit == PrintT(<<"VERIF_VEC", ToJson(prog)>>)
 =============================================================================
